@@ -233,3 +233,15 @@ CLAIMED['C41'] = dict(
          "grabFromCentralStore, thread-exit hand-back, cross-thread exclusivity through the queue. The lock defect this check found on the pinned tree (exchange 1 -> 1 after a failed attempt) "
          "was reproduced natively with malloc interposition and repaired (fix: commit in known_findings.txt).",
     technique="CBMC DFCC function + loop contracts, ghost block states, rely/guarantee on the lock word")
+
+CLAIMED['C22'] = dict(
+    category='proof',
+    text="Rely/guarantee proof (CBMC) of every RWLockImpl method - lock, try_lock, unlock, lock_shared, try_lock_shared, unlock_shared, lock_upgrade, lock_downgrade and the helpers "
+         "setWriteBit, waitForReaderDrain, readerRelease - under arbitrary protocol-conforming interference before every atomic access, with the lock word decomposed into ghost components "
+         "(owner of the writer bit, exclusive writer, holding readers, transient increments, this thread's contributions). Obligations: the decomposition is preserved; this thread clears "
+         "only a bit it owns and decrements only counts it contributed; lock / successful try_lock / lock_upgrade return owning the bit after observing the drained word, with no holding "
+         "reader and no other exclusive writer; a failed try_lock leaves no bit and no count behind; lock_shared / successful try_lock_shared return registered as a reader at a moment no "
+         "writer owned the bit; the last reader leaving under another thread's writer bit calls tryNotify. Spin loops carry loop contracts; try_lock's drain loop is unwound to its constant.",
+    note="A-SC (acquire on claiming RMWs, release on releasing RMWs checked); R/G meta-theorem and the rely (specs/c22_rwlock.c others_act) trusted; fewer than 1000 concurrent readers; "
+         "single upgrader as documented. Progress ('a blocked locker always proceeds') is NOT decided beyond the local wake obligation; wait(kWriteBit) is used through its C21 contract.",
+    technique="CBMC DFCC function + loop contracts, rely/guarantee via interference before each atomic macro, ghost decomposition of the lock word")
